@@ -245,3 +245,79 @@ Example ex_bad_len :
   let '(p', r) := on_sigreq N tH tparse tser tverify [9] (ex_peer ex_extra1) (Msg [7] (firstn 63 (ex_sig 7 ex_extra1)) []) in
   (p_next p', p_closed p', p_id p', r) = (false, true, None, Some false).
 Proof. vm_compute. reflexivity. Qed.
+
+(* ------------------------------------------------------------------ *)
+(* session secrets are unique to a session BECAUSE the accepting side's
+   ephemeral key is fresh per session                                    *)
+Section SESSIONS.
+  Variable eph : Type.
+  Variable peerpub : Type.
+  Variable xs : eph -> peerpub -> bytes.
+  (* ideal key agreement + KDF: different key pairs give different secrets *)
+  Hypothesis xs_inj : forall s c s' c', xs s c = xs s' c' -> s = s' /\ c = c'.
+
+  Lemma fresh_keys_distinct_secrets (l : list (eph * peerpub)) :
+    NoDup (map fst l) -> NoDup (session_secrets eph peerpub xs l).
+  Proof.
+    induction l as [|[s c] r IH]; cbn; intros H; [constructor|].
+    inversion H as [|? ? Hn Hr]; subst. constructor; [|now apply IH].
+    intros Hin. apply in_map_iff in Hin as ([s' c'] & E & Hin). cbn in E.
+    apply xs_inj in E as [-> _]. apply Hn. apply in_map_iff. now exists (s, c').
+  Qed.
+
+  Lemma fresh_keys_secrets_differ (l : list (eph * peerpub)) i j e1 e2 :
+    NoDup (map fst l) -> i <> j ->
+    nth_error (session_secrets eph peerpub xs l) i = Some e1 ->
+    nth_error (session_secrets eph peerpub xs l) j = Some e2 -> e1 <> e2.
+  Proof.
+    intros Hn Hij H1 H2 E. subst e2.
+    apply fresh_keys_distinct_secrets in Hn.
+    apply Hij. eapply NoDup_nth_error; eauto.
+    - apply nth_error_Some. congruence.
+    - congruence.
+  Qed.
+End SESSIONS.
+
+(* a signature recorded in session i and replayed into session j of the same
+   accepting end (whatever handshake key the dialling side supplies) *)
+Lemma replay_across_sessions_rejected
+  (pubkey : Type) (H : bytes -> bytes) (parse_pub : bytes -> option pubkey)
+  (ser_pub : pubkey -> bytes) (verify : pubkey -> bytes -> bytes -> bool)
+  (priv : Type) (pub_of : priv -> pubkey) (sign : priv -> bytes -> bytes)
+  (eph peerpub : Type) (xs : eph -> peerpub -> bytes) :
+  (forall sk h k h', verify k h' (sign sk h) = true <-> (k = pub_of sk /\ h' = h)) ->
+  (forall s c s' c', xs s c = xs s' c' -> s = s' /\ c = c') ->
+  forall (l : list (eph * peerpub)) (i j : nat) (e1 e2 : bytes) (sk : priv) (pub sig id : bytes),
+  NoDup (map fst l) -> i <> j ->
+  nth_error (session_secrets eph peerpub xs l) i = Some e1 ->
+  nth_error (session_secrets eph peerpub xs l) j = Some e2 ->
+  parse_sig sig = Some (sign sk (H e1)) ->
+  verify_signature pubkey H parse_pub ser_pub verify pub sig e2 = (Some id, false) ->
+  e1 <> e2 /\ H e1 = H e2.
+Proof.
+  intros Hideal Hinj l i j e1 e2 sk pub sig id Hn Hij H1 H2 Hs Hv.
+  pose proof (fresh_keys_secrets_differ eph peerpub xs Hinj l i j e1 e2 Hn Hij H1 H2) as Hne.
+  destruct (cross_session_rejected pubkey H parse_pub ser_pub verify priv pub_of sign Hideal
+              sk e1 e2 pub sig id Hs Hv) as ([E|[_ E]] & _); [now elim Hne|now split].
+Qed.
+
+(* refutation of the variant in which the accepting end keeps one handshake key
+   for several sessions: the dialling side then chooses the secret, two
+   sessions share it, and the signature recorded in the first is accepted in
+   the second under the victim's identity *)
+Definition ex_xs (s c : N) : bytes := [s; c].
+Example ex_xs_inj : forall s c s' c', ex_xs s c = ex_xs s' c' -> s = s' /\ c = c'.
+Proof. intros s c s' c' E. inversion E. now split. Qed.
+
+Lemma shared_server_key_refuted :
+  let l := [(5, 11); (5, 11)] in             (* the same accepting-side key 5; the attacker supplies 11 again *)
+  ~ NoDup (map fst l) /\
+  exists e, nth_error (session_secrets N N ex_xs l) 0 = Some e /\
+            nth_error (session_secrets N N ex_xs l) 1 = Some e /\
+            let '(p', r) := on_sigreq N tH tparse tser tverify [9] (ex_peer e) (Msg [7] (ex_sig 7 e) []) in
+            (p_next p', p_closed p', p_id p', r) = (true, false, Some (peer_id N tH tser 7), Some true).
+Proof.
+  split.
+  - cbn. intros H. inversion H as [|? ? Hn _]. apply Hn. now left.
+  - exists [5; 11]. repeat split.
+Qed.
